@@ -1,6 +1,6 @@
 // Line-protocol harness for Map / MultiMap (property C01).  Executes the op lines of
 // lean/Nstd/Avl/Driver.lean on the real include/nstd/Map.hpp and MultiMap.hpp.
-// Containers: 0 = Map<Key,int>, 1 = MultiMap<Key,int>, 2 = a second Map<Key,int>.
+// Containers: 0 = Map<Key,int>, 1 = MultiMap<Key,int>, 2 = a second Map, 3 = a second MultiMap.
 // Only the public API is used (the tree shape is pinned through the comparison count of
 // `find` for every key of the domain); `wb` additionally prints the node fields read through
 // an access-specifier override (evidence only).
@@ -41,9 +41,9 @@ typedef Map<Key, int> M;
 typedef MultiMap<Key, int> X;
 
 alignas(M) static unsigned char mstore[2][sizeof(M)];
-alignas(X) static unsigned char xstore[sizeof(X)];
+alignas(X) static unsigned char xstore[2][sizeof(X)];
 static M* m[2];
-static X* x;
+static X* x[2];
 static long domLo = 0, domHi = -1;
 static int lvl = 2;
 
@@ -54,8 +54,11 @@ static void resetAll()
     if(m[i]) m[i]->~M();
     m[i] = new(mstore[i]) M;
   }
-  if(x) x->~X();
-  x = new(xstore) X;
+  for(int i = 0; i < 2; ++i)
+  {
+    if(x[i]) x[i]->~X();
+    x[i] = new(xstore[i]) X;
+  }
   domLo = 0;
   domHi = -1;
   lvl = 2;
@@ -126,7 +129,17 @@ static void bad()
 static usize countOf(M&, const Key&, bool& ok) { ok = false; return 0; }
 static usize countOf(X& c, const Key& k, bool& ok) { ok = true; return c.count(k); }
 
-// item identity = 4 * (allocation number of its block) + index in the block (never an address)
+// items per heap block: told by the check (translated from the current headers)
+#ifndef AVL_IPB_MAP
+#define AVL_IPB_MAP 4
+#endif
+#ifndef AVL_IPB_MULTI
+#define AVL_IPB_MULTI 4
+#endif
+static long ipbOf(const M&) { return AVL_IPB_MAP; }
+static long ipbOf(const X&) { return AVL_IPB_MULTI; }
+
+// item identity = (items per block) * (allocation number of its block) + index in the block (never an address)
 template<class C> static long idOf(const C& c, const typename C::Item* it)
 {
   long nblocks = 0, pos = 0;
@@ -134,8 +147,8 @@ template<class C> static long idOf(const C& c, const typename C::Item* it)
   for(const typename C::ItemBlock* b = c.blocks; b; b = b->next, ++pos)
   {
     const typename C::Item* first = (const typename C::Item*)(b + 1);
-    if(it >= first && it < first + 4)
-      return 4 * (nblocks - 1 - pos) + (long)(it - first);
+    if(it >= first && it < first + ipbOf(c))
+      return ipbOf(c) * (nblocks - 1 - pos) + (long)(it - first);
   }
   return -1;
 }
@@ -265,29 +278,47 @@ int main()
     if(hxIs(l, "reset", 0)) { resetAll(); printf("ok"); hxEndLine(); continue; }
     if(hxIs(l, "dom", 2)) { domLo = hxInt(l, 1); domHi = hxInt(l, 2); printf("ok"); hxEndLine(); continue; }
     if(hxIs(l, "obs", 1)) { lvl = (int)hxNum(l, 1); printf("ok"); hxEndLine(); continue; }
-    if(l.ntok < 2 || strlen(l.tok[0]) != 1 || l.tok[0][0] < '0' || l.tok[0][0] > '2') { bad(); continue; }
+    if(l.ntok < 2 || strlen(l.tok[0]) != 1 || l.tok[0][0] < '0' || l.tok[0][0] > '3') { bad(); continue; }
     int c = l.tok[0][0] - '0';
+    bool multi = (c & 1) != 0;
+    int di = c >> 1;
     if((!strcmp(l.tok[1], "assign") || !strcmp(l.tok[1], "insall") || !strcmp(l.tok[1], "copy")) && l.ntok == 3)
     {
-      // copy / bulk insert between two different Maps (self-assignment is another area's business)
-      if(strlen(l.tok[2]) != 1 || (l.tok[2][0] != '0' && l.tok[2][0] != '2') || c == 1 || l.tok[2][0] - '0' == c) { bad(); continue; }
-      int di = c == 0 ? 0 : 1;
-      M& src = *m[1 - di];
+      // copy construction / assignment between two different containers of the same kind, bulk insert between
+      // two Maps (self-assignment is another property's business)
+      if(strlen(l.tok[2]) != 1 || l.tok[2][0] < '0' || l.tok[2][0] > '3') { bad(); continue; }
+      int sc = l.tok[2][0] - '0';
+      if(sc == c || ((sc & 1) != 0) != multi || (multi && l.tok[1][0] == 'i')) { bad(); continue; }
       g_cmps = 0;
-      if(l.tok[1][0] == 'a') *m[di] = src;
-      else if(l.tok[1][0] == 'c')
-      { // copy constructor
-        m[di]->~M();
-        m[di] = new(mstore[di]) M(src);
+      if(!multi)
+      {
+        M& src = *m[1 - di];
+        if(l.tok[1][0] == 'a') *m[di] = src;
+        else if(l.tok[1][0] == 'c')
+        { // copy constructor
+          m[di]->~M();
+          m[di] = new(mstore[di]) M(src);
+        }
+        else m[di]->insert(src);
+        observe(*m[di], "-", g_cmps);
       }
-      else m[di]->insert(src);
-      observe(*m[di], "-", g_cmps);
+      else
+      {
+        X& src = *x[1 - di];
+        if(l.tok[1][0] == 'a') *x[di] = src;
+        else
+        {
+          x[di]->~X();
+          x[di] = new(xstore[di]) X(src);
+        }
+        observe(*x[di], "-", g_cmps);
+      }
       continue;
     }
-    bool done = c == 1 ? doOp(*x, l) : doOp(*m[c == 0 ? 0 : 1], l);
+    bool done = multi ? doOp(*x[di], l) : doOp(*m[di], l);
     if(!done) bad();
   }
   for(int i = 0; i < 2; ++i) m[i]->~M();
-  x->~X();
+  for(int i = 0; i < 2; ++i) x[i]->~X();
   return 0;
 }
